@@ -9,6 +9,7 @@ import QModel.Skeleton
 import QModel.Calib
 import QModel.Validate
 import QModel.Serialize
+import QModel.Eval
 open Lean Num Nd Arith Cfg Graph Mat
 
 /-! JSON-lines driver: one request per line on stdin, one response per line on stdout. -/
@@ -497,7 +498,13 @@ def handle (j : Json) : Except String Json := do
       pure (match Pipeline.quantizePure rx env st qs with
         | .ok (m', tbl) => Json.mkObj [("ok", modelToJson m'), ("params", Json.arr (tbl.map paramToJson).toArray),
                                         ("wf", Json.bool (WF.modelOK m')),
-                                        ("skeleton", Json.bool (Skeleton.sameModelSkeleton env.model m'))]
+                                        ("skeleton", Json.bool (Skeleton.sameModelSkeleton env.model m')),
+                                        -- hypotheses of the C06 evaluation theorems, per subgraph of the model's output
+                                        ("c06_shape", Json.arr (m'.subgraphs.map fun sg => Json.mkObj [
+                                            ("ins", toJson (Eval.insOps sg).length),
+                                            ("deq_on_const", Json.bool (Eval.deqOnConst sg)),
+                                            ("ins_before_use", Json.bool (Eval.insBeforeUse sg)),
+                                            ("outputs_clean", Json.bool (Eval.outputsClean sg))]).toArray)]
         | .error e => errJson e)
   | "calibrate" =>
       let env ← getEnv j
